@@ -211,17 +211,29 @@ func (stg *Stage) Serialize(writer io.Writer) error {
 	return yaml.NewEncoder(writer).Encode(stg.toFileFormat())
 }
 
-// ToFile writes a Stage to the given file path.
+// ToFile writes a Stage to the given file path. The Stage is written to a
+// temporary file next to the target which is then renamed into place, so that
+// an interrupted write never leaves a truncated or half-written Stage file.
 func (stg *Stage) ToFile(path string) error {
 	errPrefix := "writing stage " + path
 	// TODO: If we stop relying on the project-wide lock file, this should be
 	// flocked.
-	stageFile, err := os.Create(path)
+	tempPath := path + ".tmp"
+	stageFile, err := os.Create(tempPath)
 	if err != nil {
 		return errors.Wrap(err, errPrefix)
 	}
-	defer stageFile.Close()
 	if err := stg.Serialize(stageFile); err != nil {
+		stageFile.Close()
+		os.Remove(tempPath)
+		return errors.Wrap(err, errPrefix)
+	}
+	if err := stageFile.Close(); err != nil {
+		os.Remove(tempPath)
+		return errors.Wrap(err, errPrefix)
+	}
+	if err := os.Rename(tempPath, path); err != nil {
+		os.Remove(tempPath)
 		return errors.Wrap(err, errPrefix)
 	}
 	return nil
